@@ -131,7 +131,7 @@ func snap(b *strings.Builder, v reflect.Value, seen map[uintptr]bool) {
 
 func stride(thorough bool) int {
 	if thorough {
-		return 17
+		return 37
 	}
 	return 151
 }
@@ -145,7 +145,7 @@ func subjects(thorough bool) []subject {
 	var out []subject
 	stride := 151
 	if thorough {
-		stride = 17
+		stride = 37
 	}
 	for i, t := range gen.Schemas2020(false).List {
 		if i%stride == 0 {
